@@ -190,8 +190,9 @@ let run ?(spec = false) ?(scope = false) ?(simp = false) ?(quiet = false) () =
                 (match BuildM.build_program tc t with
                  | BuildM.BErr _ -> "BUILDERR x"
                  | BuildM.BOk (m, blks) ->
-                   if QuietM.has_format m || List.exists QuietM.has_format blks then "OK"   (* outside the theorem *)
-                   else if QuietM.quietb m && List.for_all QuietM.quietb blks then "EQ" else "NE")
+                   if not (QuietM.quietb m && List.for_all QuietM.quietb blks) then "NE"
+                   else if QuietM.has_format m || List.exists QuietM.has_format blks then "OK"   (* pristine; with format ops *)
+                   else "EQ")
               else
               match BuildM.build_program tc t with
               | BuildM.BErr BuildM.BUnbound -> "BUILDERR unbound"
